@@ -65,26 +65,26 @@ func (e *evt) HandlerID() string           { return "H" }
 func (e *evt) IsSecondary() bool           { return e.secondary }
 
 type evRec struct {
-	time      uint64
-	secondary bool
-	schedDone uint64 // sequence number at which Schedule returned
-	start     uint64
-	end       uint64
-	count     int
+	time          uint64
+	secondary     bool
+	schedDone     uint64 // sequence number at which Schedule returned
+	start         uint64
+	end           uint64
+	count         int
 	bySecondaryAt uint64 // time+1 of the secondary handler that scheduled it (0: scheduled otherwise)
 	external      bool   // scheduled by the controller goroutine, possibly while Run was about to return
 }
 
 type world struct {
-	c        *EngCase
-	eng      timing.Engine
-	seq      uint64
-	recs     []*evRec
-	inflight int
-	V        *kit.Violation
-	paused   bool // between Pause() returning and Continue() being called
-	runDone  bool
-	ctlDone  bool
+	c          *EngCase
+	eng        timing.Engine
+	seq        uint64
+	recs       []*evRec
+	inflight   int
+	V          *kit.Violation
+	paused     bool // between Pause() returning and Continue() being called
+	runDone    bool
+	ctlDone    bool
 	pausesDone int
 	phase      *kit.Violation
 }
@@ -213,8 +213,8 @@ func GenProgram(r *kit.Rand, maxEv int) Program {
 // runEngine executes the case; ctl (optional) is the controller goroutine body.
 func runEngine(c *EngCase, ctl func(w *world)) (*world, *sched.Sched) {
 	w := &world{c: c}
-	rng := kit.NewRand(c.Seed)
-	s := &sched.Sched{Choose: sched.ListChooser(c.Decisions, rng.Intn), MaxSteps: 30000}
+	s := &sched.Sched{MaxSteps: 30000}
+	s.Choose = sched.ListChooser(c.Decisions, sched.MixedChooser(c.Seed, s))
 
 	if c.Decisions != nil {
 		s.Choose = sched.ListChooser(c.Decisions, nil)
